@@ -1,11 +1,407 @@
-//! (not built yet)
-use serde_json::Value;
-use vcore::Run;
+//! C16 — everything the endpoint emits is well-formed HTTP/3 and WebTransport.
 
-pub fn run(run: &Run) {
-    run.inconclusive("check not built yet");
+use crate::c02;
+use crate::common::*;
+use proptest::prelude::*;
+use serde::{Deserialize, Serialize};
+use serde_json::Value;
+use std::sync::Arc;
+use std::time::Duration;
+use vcore::{prop_search, Outcome, Run, Search};
+use wire::validate::*;
+use wire::*;
+use wtransport::endpoint::ConnectOptions;
+
+const RULE: &str = "scenario = session setup from the C02 generator (URL, 0..12 header fields, server decision) with the wtransport endpoint in either role against a recording raw peer, followed by 0..6 application streams (uni/bidi, generated payloads), 0..4 datagrams and a final Connection::close(code, reason); session ids 0 and 256 (64 burnt request streams). Everything the endpoint opened or sent is decoded with the reference codec: exactly one control stream whose first frame is a single SETTINGS (ENABLE_WEBTRANSPORT=1, H3_DATAGRAM=1, ENABLE_CONNECT_PROTOCOL=1, QPACK capacity/blocked absent or 0, no id twice, no reserved id, no second SETTINGS, nothing that is not a frame); request / response field sections with prefix (0,0), static or literal representations only, pseudo-fields first, the five request pseudo-fields resp. a 3-digit :status; every WT uni stream 0x54||session||bytes, every WT bidi stream 0x41||session||bytes, every datagram quarter-id||payload; the close code and reason the peer sees are the application's; ALPN is exactly h3. Non-trivial: the endpoint emitted >= 1 HEADERS and >= 1 WT stream or datagram; distinct = distinct scenario";
+
+#[derive(Clone, Debug, Serialize, Deserialize)]
+pub struct Case {
+    pub setup: c02::Case,
+    pub wt_is_client: bool,
+    pub high_session: bool,
+    pub streams: Vec<(bool, u16, u8)>,
+    pub datagrams: Vec<(u16, u8)>,
+    pub close_code: u64,
+    pub close_reason: Vec<u8>,
 }
 
-pub fn replay(_run: &Run, _doc: &Value) -> bool {
-    false
+pub fn case_strategy() -> impl Strategy<Value = Case> {
+    (
+        c02::case_strategy(),
+        any::<bool>(),
+        prop_oneof![4 => Just(false), 1 => Just(true)],
+        proptest::collection::vec((any::<bool>(), prop_oneof![0u16..4, 0u16..3000], any::<u8>()), 0..6),
+        proptest::collection::vec((0u16..1000, any::<u8>()), 0..4),
+        prop_oneof![Just(0u64), Just(0x100), any::<u32>().prop_map(|v| v as u64), 0u64..(1 << 62)],
+        proptest::collection::vec(any::<u8>(), 0..30),
+    )
+        .prop_map(|(setup, wt_is_client, high_session, streams, datagrams, close_code, close_reason)| Case { setup, wt_is_client, high_session, streams, datagrams, close_code, close_reason })
+}
+
+fn fail(what: &str, e: String) -> CaseResult {
+    viol(format!("C16:{what}"), e)
+}
+
+async fn exec_async(case: Arc<Case>) -> CaseResult {
+    let setup = &case.setup;
+    let accepting = matches!(setup.decision, c02::Decision::Accept | c02::Decision::AcceptWithHeaders(_));
+    let mut emitted_headers = false;
+    let mut emitted_wt = false;
+    let conn: Option<wtransport::Connection>;
+    let raw_conn: quinn::Connection;
+    let session: u64;
+    let recorder: Recorder;
+    let mut _keep: Vec<Box<dyn std::any::Any + Send>> = Vec::new();
+    if case.wt_is_client {
+        // wtransport client against a raw server that records everything, including the request stream
+        let (raw_ep, addr) = match raw_server(&Tuning::default()) {
+            Ok(x) => x,
+            Err(e) => return CaseResult::Skip(e),
+        };
+        let mut s2 = setup.clone();
+        if s2.host_kind % 3 == 1 {
+            s2.host_kind = 2;
+        }
+        let (url, authority, path) = c02::url_of(&s2, addr);
+        let client_ep = c02::wt_client_for(addr);
+        let status = if accepting { "200".to_string() } else { setup.status.max(300).to_string() };
+        let serve = async {
+            let incoming = tokio::time::timeout(Duration::from_secs(5), raw_ep.accept()).await.map_err(|_| "no incoming")?.ok_or("endpoint closed")?;
+            let rc = incoming.await.map_err(|e| e.to_string())?;
+            let rec = Recorder::start(&rc);
+            let _control = open_control(&rc, &default_settings()).await?;
+            // wait for the request: a client-initiated bidi stream carrying one complete HEADERS frame
+            let ok = rec
+                .wait(Duration::from_secs(5), |log| log.streams.iter().any(|(id, s)| id % 4 == 0 && s.bidi && matches!(refcodec::dec_elem(&s.bytes), refcodec::ElemDec::Frame { payload: Some(_), .. })))
+                .await;
+            if !ok {
+                return Err("no complete request arrived".to_string());
+            }
+            let (sid, mut send) = {
+                let mut g = rec.log.lock().unwrap();
+                let sid = *g.streams.iter().find(|(id, s)| *id % 4 == 0 && s.bidi).unwrap().0;
+                (sid, g.bidi_send.remove(&sid).unwrap())
+            };
+            send.write_all(&response_frame(&status, &[])).await.map_err(|e| e.to_string())?;
+            Ok::<_, String>((rc, rec, sid, send, _control))
+        };
+        let mut opts = ConnectOptions::builder(&url);
+        for (k, v) in &setup.headers {
+            opts = opts.add_header(k, v);
+        }
+        let (s, c) = tokio::join!(serve, client_ep.connect(opts.build()));
+        let (rc, rec, sid, send, control) = match s {
+            Ok(x) => x,
+            Err(e) => return fail("request-unreadable", format!("raw server could not obtain a request for {url:?}: {e}")),
+        };
+        // the request as it appeared on the wire
+        let bytes = rec.log.lock().unwrap().streams[&sid].bytes.clone();
+        match split_frames(&bytes) {
+            Ok(frames) => {
+                let Some((ty, payload)) = frames.iter().find(|(t, _)| !refcodec::is_grease(*t)) else {
+                    return fail("request", "request stream carries no frame".into());
+                };
+                if *ty != refcodec::registry::FRAME_HEADERS {
+                    return fail("request", format!("first frame on the request stream has type {ty:#x}"));
+                }
+                match validate_field_section(payload, Message::Request) {
+                    Ok(fields) => {
+                        emitted_headers = true;
+                        let get = |n: &str| fields.iter().find(|(k, _)| k == n).map(|(_, v)| v.as_str());
+                        if get(":authority") != Some(authority.as_str()) || get(":path") != Some(path.as_str()) {
+                            return fail("request", format!(":authority/:path on the wire are {:?}/{:?}, expected {authority:?}/{path:?}", get(":authority"), get(":path")));
+                        }
+                        for (k, v) in &setup.headers {
+                            if get(k) != Some(v.as_str()) {
+                                return fail("request", format!("field {k:?} on the wire is {:?}", get(k).map(|x| short(x.as_bytes()))));
+                            }
+                        }
+                        if fields.len() != 5 + setup.headers.len() {
+                            return fail("request", format!("{} fields on the wire for {} requested", fields.len(), 5 + setup.headers.len()));
+                        }
+                    }
+                    Err(e) => return fail("request", e),
+                }
+            }
+            Err(e) => return fail("request", e),
+        }
+        conn = c.ok();
+        raw_conn = rc;
+        session = sid;
+        recorder = rec;
+        _keep.push(Box::new((client_ep, raw_ep, send, control)));
+    } else {
+        // raw client against the wtransport server; the raw client reads the response itself
+        let server_ep = wt_server(&Tuning::default());
+        let addr = server_ep.local_addr().unwrap();
+        let decision = setup.decision.clone();
+        let serve = async {
+            let incoming = server_ep.accept().await;
+            let req = incoming.await.map_err(|e| conn_err(&e))?;
+            let c = match decision {
+                c02::Decision::Accept => Some(req.accept().await.map_err(|e| conn_err(&e))?),
+                c02::Decision::AcceptWithHeaders(h) => Some(req.accept_with_headers(h).await.map_err(|e| conn_err(&e))?),
+                c02::Decision::Forbidden => {
+                    req.forbidden().await;
+                    None
+                }
+                c02::Decision::NotFound => {
+                    req.not_found().await;
+                    None
+                }
+                c02::Decision::TooManyRequests => {
+                    req.too_many_requests().await;
+                    None
+                }
+            };
+            Ok::<_, String>(c)
+        };
+        let high = case.high_session;
+        let headers = setup.headers.clone();
+        let client = async {
+            let (ep, rc) = raw_connect(addr, &Tuning::default()).await?;
+            let rec = Recorder::start(&rc);
+            let control = open_control(&rc, &default_settings()).await?;
+            if high {
+                for _ in 0..64 {
+                    let (mut s, _r) = rc.open_bi().await.map_err(|e| e.to_string())?;
+                    let _ = s.write_all(&headers_frame(&[(":method".into(), "GET".into(), Default::default())])).await;
+                    let _ = s.finish();
+                }
+            }
+            let (mut rs, mut rr) = rc.open_bi().await.map_err(|e| e.to_string())?;
+            let sid = quinn::VarInt::from(rs.id()).into_inner();
+            let mut fields = connect_request_fields(&addr.to_string(), "/c16");
+            for (k, v) in &headers {
+                fields.push((k.clone(), v.clone(), Default::default()));
+            }
+            rs.write_all(&headers_frame(&fields)).await.map_err(|e| e.to_string())?;
+            // raw response bytes: read until one complete non-GREASE frame is there
+            let mut bytes = Vec::new();
+            let mut chunk = [0u8; 4096];
+            let deadline = tokio::time::Instant::now() + Duration::from_secs(5);
+            loop {
+                if let Ok(frames) = split_frames(&bytes) {
+                    if frames.iter().any(|(t, _)| !refcodec::is_grease(*t)) {
+                        break;
+                    }
+                }
+                match tokio::time::timeout_at(deadline, rr.read(&mut chunk)).await {
+                    Ok(Ok(Some(n))) => bytes.extend_from_slice(&chunk[..n]),
+                    Ok(Ok(None)) => break,
+                    _ => return Err("no response".to_string()),
+                }
+            }
+            Ok::<_, String>((ep, rc, rec, control, rs, rr, sid, bytes))
+        };
+        let (s, c) = tokio::join!(serve, client);
+        let (ep, rc, rec, control, rs, rr, sid, resp_bytes) = match c {
+            Ok(x) => x,
+            Err(e) => return fail("response-unreadable", e),
+        };
+        match split_frames(&resp_bytes) {
+            Ok(frames) => {
+                let Some((ty, payload)) = frames.iter().find(|(t, _)| !refcodec::is_grease(*t)) else {
+                    return fail("response", "no response frame".into());
+                };
+                if *ty != refcodec::registry::FRAME_HEADERS {
+                    return fail("response", format!("first response frame has type {ty:#x}"));
+                }
+                match validate_field_section(payload, Message::Response) {
+                    Ok(fields) => {
+                        emitted_headers = true;
+                        if let c02::Decision::AcceptWithHeaders(h) = &setup.decision {
+                            for (k, v) in h {
+                                if fields.iter().find(|(n, _)| n == k).map(|(_, x)| x) != Some(v) {
+                                    return fail("response", format!("extra response field {k:?} missing or altered on the wire"));
+                                }
+                            }
+                        }
+                    }
+                    Err(e) => return fail("response", e),
+                }
+            }
+            Err(e) => return fail("response", e),
+        }
+        conn = s.ok().flatten();
+        raw_conn = rc;
+        session = sid;
+        recorder = rec;
+        _keep.push(Box::new((server_ep, ep, control, rs, rr)));
+    }
+    // ALPN
+    match raw_conn.handshake_data().and_then(|h| h.downcast::<quinn::crypto::rustls::HandshakeData>().ok()) {
+        Some(h) if h.protocol.as_deref() == Some(&b"h3"[..]) => {}
+        other => return fail("alpn", format!("negotiated ALPN is {:?}", other.map(|h| h.protocol))),
+    }
+    // application traffic
+    let mut expect_uni: Vec<Vec<u8>> = Vec::new();
+    let mut expect_bi: Vec<Vec<u8>> = Vec::new();
+    let mut expect_dg: Vec<Vec<u8>> = Vec::new();
+    if let Some(conn) = &conn {
+        if conn.session_id().into_u64() != session {
+            return fail("session-id", format!("endpoint reports session {}, CONNECT stream is {session}", conn.session_id()));
+        }
+        for (i, (bidi, len, seed)) in case.streams.iter().enumerate() {
+            let data = payload(7000 + *seed as u64 + i as u64 * 257, *len as usize, &[]);
+            let r: Res<()> = async {
+                if *bidi {
+                    let (mut s, _r) = conn.open_bi().await.map_err(|e| conn_err(&e))?.await.map_err(|e| e.to_string())?;
+                    s.write_all(&data).await.map_err(|e| e.to_string())?;
+                    s.finish().await.map_err(|e| e.to_string())?;
+                } else {
+                    let mut s = conn.open_uni().await.map_err(|e| conn_err(&e))?.await.map_err(|e| e.to_string())?;
+                    s.write_all(&data).await.map_err(|e| e.to_string())?;
+                    s.finish().await.map_err(|e| e.to_string())?;
+                }
+                Ok(())
+            }
+            .await;
+            if let Err(e) = r {
+                return fail("app-stream", format!("application stream #{i} failed: {e}"));
+            }
+            if *bidi {
+                expect_bi.push(data);
+            } else {
+                expect_uni.push(data);
+            }
+        }
+        for (i, (len, seed)) in case.datagrams.iter().enumerate() {
+            let data = payload(9000 + *seed as u64 + i as u64, *len as usize, &[]);
+            if conn.send_datagram(&data).is_ok() {
+                expect_dg.push(data);
+            }
+        }
+        tokio::time::sleep(Duration::from_millis(40)).await;
+        conn.close(wtransport::VarInt::try_from_u64(case.close_code).unwrap(), &case.close_reason);
+        match tokio::time::timeout(Duration::from_secs(5), raw_conn.closed()).await {
+            Ok(e) => {
+                let want = CloseSeen::Application(case.close_code, case.close_reason.clone());
+                if close_seen(&e) != want {
+                    return fail("close", format!("application closed with ({}, {}) but the peer saw {:?}", case.close_code, short(&case.close_reason), close_seen(&e)));
+                }
+            }
+            Err(_) => return CaseResult::Timeout("peer never saw the close".into()),
+        }
+    } else {
+        tokio::time::sleep(Duration::from_millis(30)).await;
+    }
+    recorder.stop();
+    let (streams, dgrams) = recorder.snapshot();
+    // streams the endpoint opened
+    let mut controls = 0;
+    let mut got_uni: Vec<Vec<u8>> = Vec::new();
+    let mut got_bi: Vec<Vec<u8>> = Vec::new();
+    for (id, st) in &streams {
+        let opened_by_endpoint = (id & 1 == 1) != case.wt_is_client;
+        if !opened_by_endpoint || *id == session {
+            // the CONNECT stream itself was validated above
+            continue;
+        }
+        if st.bidi {
+            match validate_wt_bi(&st.bytes, session) {
+                Ok(app) => {
+                    emitted_wt = true;
+                    got_bi.push(app)
+                }
+                Err(e) => return fail("wt-bidi", format!("stream {id}: {e}; bytes {}", short(&st.bytes))),
+            }
+        } else {
+            match refcodec::dec_uni_header(&st.bytes) {
+                refcodec::UniHeaderDec::Plain(t, _) if t == refcodec::registry::STREAM_CONTROL => {
+                    controls += 1;
+                    if let Err(e) = validate_control(&st.bytes) {
+                        return fail("control", format!("{e}; bytes {}", short(&st.bytes)));
+                    }
+                }
+                refcodec::UniHeaderDec::Plain(t, _) if t == refcodec::registry::STREAM_QPACK_ENCODER || t == refcodec::registry::STREAM_QPACK_DECODER || refcodec::is_grease(t) => {}
+                refcodec::UniHeaderDec::Wt(..) => match validate_wt_uni(&st.bytes, session) {
+                    Ok(app) => {
+                        emitted_wt = true;
+                        got_uni.push(app)
+                    }
+                    Err(e) => return fail("wt-uni", format!("stream {id}: {e}")),
+                },
+                other => return fail("uni-type", format!("stream {id} has an unexpected header: {other:?}; bytes {}", short(&st.bytes))),
+            }
+        }
+    }
+    if controls != 1 {
+        return fail("control", format!("the endpoint opened {controls} control streams"));
+    }
+    let sort = |mut v: Vec<Vec<u8>>| {
+        v.sort();
+        v
+    };
+    if sort(got_uni.clone()) != sort(expect_uni.clone()) {
+        return fail("wt-uni", format!("application bytes of WT uni streams differ: {} streams seen, {} opened", got_uni.len(), expect_uni.len()));
+    }
+    if sort(got_bi.clone()) != sort(expect_bi.clone()) {
+        return fail("wt-bidi", format!("application bytes of WT bidi streams differ: {} streams seen, {} opened", got_bi.len(), expect_bi.len()));
+    }
+    for d in &dgrams {
+        match validate_datagram(d, session) {
+            Ok(p) => {
+                emitted_wt = true;
+                if !expect_dg.contains(&p) {
+                    return fail("datagram", format!("datagram payload {} was never sent", short(&p)));
+                }
+            }
+            Err(e) => return fail("datagram", e),
+        }
+    }
+    let mut labels = vec![if case.wt_is_client { "role:client" } else { "role:server" }];
+    if session >= 256 {
+        labels.push("session>=256");
+    }
+    if !dgrams.is_empty() {
+        labels.push("datagram-seen");
+    }
+    if !got_uni.is_empty() {
+        labels.push("wt-uni-seen");
+    }
+    if !got_bi.is_empty() {
+        labels.push("wt-bidi-seen");
+    }
+    if !accepting {
+        labels.push("rejected-session");
+    }
+    CaseResult::Pass { nontrivial: emitted_headers && emitted_wt, labels }
+}
+
+pub fn exec(case: &Case) -> CaseResult {
+    let c = Arc::new(case.clone());
+    match run_on(case.setup.flavor, Duration::from_secs(25), exec_async(c)) {
+        Some(r) => r,
+        None => CaseResult::Timeout("case did not finish in 25 s".into()),
+    }
+}
+
+pub fn run(run: &Run) {
+    run.set_rule(RULE);
+    run.trust("refcodec and wire::validate (independent decoding of everything recorded)");
+    prop_search(
+        run,
+        Search { check: "wire-format", cases: run.tier.pick(300, 4000), workers: 8, max_shrink_iters: 120 },
+        case_strategy,
+        |c| judge(|| exec(c), false, "C16:hang"),
+        |c| serde_json::to_value(c).unwrap(),
+    );
+    for l in ["role:client", "role:server", "session>=256", "datagram-seen", "wt-uni-seen", "wt-bidi-seen", "rejected-session"] {
+        run.essential(l);
+    }
+}
+
+pub fn replay(run: &Run, doc: &Value) -> bool {
+    let Ok(case) = serde_json::from_value::<Case>(doc["case"].clone()) else {
+        return false;
+    };
+    run.eval("wire-format", true, 1);
+    for _ in 0..3 {
+        if let Outcome::Fail { signature, message } = judge(|| exec(&case), false, "C16:hang") {
+            run.fail("wire-format", &signature, &message, doc["case"].clone());
+            break;
+        }
+    }
+    true
 }
